@@ -8,6 +8,8 @@ from vlib.harness import require as assume
 from vlib import cy, gens, ref
 from vlib.harness import Cell, Violation, require
 from props import common_lie as L
+import math
+PI = math.pi
 
 RULE = (
     "Cases: Hypothesis-generated pairs/triples of valid elements per group (stratified rotation angle 0..2pi incl. "
@@ -298,11 +300,50 @@ def euler_variant_cell():
                 lambda c: [L.euler_variants()[c["variant"]][1]], quick=460, thorough=6000)
 
 
+def so2_frommat_tight_cell():
+    """to_Matrix(from_Matrix(M)) = M for SO(2) and SE(2) at 1e-13 on planar rotations close to 0 and to +-pi, where an
+    arccos/arcsin based angle recovery loses 1e-16/|theta| (seed C01-r6B); the unchanged tree (atan2) is exact to ~1e-16."""
+    import casadi as ca
+    from hypothesis import strategies as st
+    fns = {}
+
+    def fn(which):
+        if which not in fns:
+            from cyecca.lie.group_so2 import SO2
+            from cyecca.lie.group_se2 import SE2
+            G, n = (SO2, 2) if which == "SO2" else (SE2, 3)
+            M = ca.SX.sym("M", n, n)
+            with cy.quiet():
+                fns[which] = ca.Function("fm_" + which, [M], [G.from_Matrix(M).to_Matrix()])
+        return fns[which]
+
+    @st.composite
+    def case(draw):
+        return {"G": draw(st.sampled_from(["SO2", "SE2"])), "base": draw(st.sampled_from([0, 1, -1, 0, 1, -1, 2])),
+                "off": draw(st.sampled_from([-1.0, 1.0])) * 10.0 ** draw(gens.fl(-9.0, -2.0)), "generic": draw(gens.fl(-PI, PI)),
+                "t": [draw(gens.fl(-10.0, 10.0)), draw(gens.fl(-10.0, 10.0))]}
+
+    def check(c):
+        require(c["G"] in ("SO2", "SE2") and c["base"] in (0, 1, -1, 2) and abs(c["off"]) <= 1e-2 and abs(c["generic"]) <= PI)
+        th = c["generic"] if c["base"] == 2 else c["base"] * PI + c["off"]
+        cs, sn = math.cos(th), math.sin(th)
+        if c["G"] == "SO2":
+            M = np.array([[cs, -sn], [sn, cs]])
+        else:
+            M = np.array([[cs, -sn, c["t"][0]], [sn, cs, c["t"][1]], [0, 0, 1.0]])
+        M2 = cy.arr(fn(c["G"])(M))
+        L.close(M2, M, "%s: to_Matrix(from_Matrix(M)) vs M at planar angle %.17g" % (c["G"], th), atol=1e-13, rtol=0, scale=1.0, **c)
+
+    return Cell("SO2SE2/frommat_tight", case(), check, lambda c: c["base"] != 2 and abs(c["off"]) > 0,
+                lambda c: ["G:" + c["G"], "near:" + {0: "0", 1: "pi", -1: "-pi", 2: "generic"}[c["base"]]], quick=600, thorough=12000)
+
+
 def build(tier):
     cells = []
     for gi in L.all_groups(tier):
         cells += make_cells(gi, tier)
     cells.append(euler_variant_cell())
+    cells.append(so2_frommat_tight_cell())
     return {
         "cells": cells,
         "rule": RULE,
